@@ -257,7 +257,8 @@ Section CooOpsP.
     destruct (forallb _ l) eqn:Ef; [|discriminate]. injection H as <-.
     apply forallb_and in Ef. destruct Ef as [_ Ef].
     rewrite fl_concat0_eq, ctor_TF_id by (exact (concat0_lengths l Hc)).
-    unfold prunedb. simpl. apply forallb_forall. intros v Hv. apply in_concat in Hv.
+    unfold prunedb. cbn [c_data c_fill].
+    change (c_data a0 ++ concat (map (@c_data V) l0)) with (concat (map (@c_data V) l)). apply forallb_forall. intros v Hv. apply in_concat in Hv.
     destruct Hv as [d [Hd Hv]]. apply in_map_iff in Hd. destruct Hd as [c [<- Hin]].
     rewrite Forall_forall in Hg. destruct (Hg c Hin) as [_ Hp]. rewrite forallb_forall in Ef.
     specialize (Ef c Hin). apply veqb_eq in Ef. unfold prunedb in Hp. rewrite forallb_forall in Hp.
@@ -267,14 +268,14 @@ Section CooOpsP.
   (* -------- binary *)
   Lemma keep2_wf o a b r : canon a -> canon b -> csem2 V veqb add o a b = Some r -> canon r.
   Proof.
-    intros Ha Hb. destruct o; simpl.
+    intros Ha Hb. destruct o; [simpl|].
     - destruct (idx_eqb (c_shape a) (c_shape b)) eqn:Es; [|discriminate]. simpl.
       destruct (veqb (c_fill a) (c_fill b)); [|discriminate]. intros H; inversion H; subst.
       apply idx_eqb_eq in Es. destruct Ha as [Ra [_ La]], Hb as [Rb [_ Lb]].
       apply ctor_canonical_proof; auto; try discriminate.
       + rewrite !app_length. lia.
       + apply Forall_app. split; [assumption|rewrite Es; assumption].
-    - apply concat0_wf. repeat constructor; assumption.
+    - unfold csem2. apply concat0_wf. repeat constructor; assumption.
   Qed.
 
   Lemma keep2_good o a b r : good a -> good b -> csem2 V veqb add o a b = Some r -> good r.
@@ -287,7 +288,7 @@ Section CooOpsP.
       apply ctor_pruned_proof; auto; try discriminate.
       + rewrite !app_length. lia.
       + apply Forall_app. split; [assumption|rewrite Es; assumption].
-    - simpl in H. eapply concat0_good; [|exact H]. repeat constructor; assumption.
+    - unfold csem2 in H. eapply concat0_good; [|exact H]. repeat constructor; assumption.
   Qed.
 
   Lemma keepN_wf o l r : Forall canon l -> csemN V veqb add o l = Some r -> canon r.
